@@ -326,7 +326,16 @@ class Run:
         try:
             dgram = bytes(m.gen_msg(c["legacy"]))
         except Exception as e:
+            if c.get("outside_the_layout") and isinstance(e, ValueError):
+                return          # a TSC set the layout does not define: the message codec refuses it (it must, or emit something the definition accepts)
             self.fail("gen_msg refuses a valid message", name, inp, "%s: %s" % (type(e).__name__, e), "a datagram")
+            return
+        if c.get("outside_the_layout"):
+            # whatever the message codec DOES emit has to be accepted by the corresponding definition (the statement's last clause)
+            try:
+                self.decode(name, dgram)
+            except Exception as e:
+                self.fail("message-codec datagram rejected", name, dict(inp, datagram_len=len(dgram)), scrub(e), "accepted, or refused by gen_msg() in the first place")
             return
         try:
             pdu, n = self.decode(name, dgram)
@@ -452,6 +461,13 @@ def fixed(r):
                 k += 1
                 r.msg_case(dict(cls="rx", ver=1, fn=FN_EDGE[k % len(FN_EDGE)], tn=k % 8, rssi=(-120, -47, -63)[k % 3], toa256=TOA_EDGE[k % len(TOA_EDGE)],
                                 ci=CI_EDGE[k % len(CI_EDGE)], nope=False, mod=mod, tsc_set=tsc_set, tsc=tsc, burst=soft_ints(bl, k), legacy=bool(k & 1)))
+    # TSC sets the layout does not define for a modulation: refused by the message codec, or emitted in a form the definition accepts
+    for mod, coding, bl, nsets in MODS:
+        for tsc_set in range(nsets, 4):
+            for tsc in (0, 7):
+                k += 1
+                r.msg_case(dict(cls="rx", ver=1, fn=FN_EDGE[k % len(FN_EDGE)], tn=k % 8, rssi=-63, toa256=0, ci=0, nope=False, mod=mod, tsc_set=tsc_set, tsc=tsc,
+                                burst=soft_ints(bl, k), legacy=False, outside_the_layout=True))
     for legacy in (False, True):
         for fn in FN_EDGE:
             k += 1
